@@ -12,15 +12,15 @@ VERIF = os.path.dirname(os.path.dirname(os.path.abspath(__file__)))
 
 TEXT = {
     'C01': ('model_checking', '3/C01',
-            'Bounded exhaustive exploration of the real Engine: every S-family composite/script up to the bound is compared with the ideal-timeline reference model (exact application times, exactly-once, FIFO, row content on unique tokens), and every execution with <= k non-default poll answers (explorer D) is checked against trace invariants. Also worlds starting at clock 1.5*2**30 and gated worlds whose condition variable is declared in the class defaults.',
+            'Bounded exhaustive exploration of the real Engine: every S-family composite/script up to the bound is compared with the ideal-timeline reference model (exact application times, exactly-once, FIFO, row content on unique tokens), and every execution with <= k non-default poll answers (explorer D) is checked against trace invariants. Also worlds starting at clock 1.5*2**30 and gated worlds whose condition variable is declared in the class defaults. V-family: updates returned in every form (explicit {_value,_updater} with falsy values, arrays passed through, shared default arrays) against a ledger of what was returned.',
             'Trusts the probe seams (Process subclass, user updater, user Emitter) and exact dyadic float arithmetic; bounds: N<=2/3 processes, <=3/4 driver calls, <=2/3 answer deviations.',
             'bounded exhaustive execution enumeration (cross product + deviation-bounded stateless search over poll answers) with reference-timeline conformance'),
     'C02': ('model_checking', '3/C02',
-            'Same executions as C01 plus non-dividing timesteps; decides that the timestep argument equals the interval length, intervals are contiguous, timesteps sum to elapsed time and nothing is pending after update().',
+            'Same executions as C01 plus non-dividing timesteps; decides that the timestep argument equals the interval length, intervals are contiguous, timesteps sum to elapsed time and nothing is pending after update(). Also enormous / infinite timesteps under forced calls and regenerated processes whose timesteps must tile their life.',
             'As C01; Engine.front only as a soft cross-check.',
             'bounded exhaustive execution enumeration with interval-contiguity monitors and ideal-timeline conformance'),
     'C03': ('model_checking', '3/C03',
-            'Online clock monitor on every global_time write over S-family (incl. all-quiet, steps-only, self-deleting), unrestricted adaptive answers up to the deviation bound and precision grids; lasso detection decides non-termination.',
+            'Online clock monitor on every global_time write over S-family (incl. all-quiet, steps-only, self-deleting), unrestricted adaptive answers up to the deviation bound and precision grids; lasso detection decides non-termination. Also a top-level variable named time under precision grids; K1 is matched only for re-polls in the very next scheduler pass.',
             'Clock writes observed through a subclass property; termination decided by lasso + caps under fixed answer policies.',
             'deviation-bounded stateless exploration of poll answers + exhaustive schedule grids with an online clock/lasso monitor'),
     'C04': ('model_checking', '3/C04',
@@ -32,31 +32,31 @@ TEXT = {
             'Flows are well-formed DAGs; derivers are declared homogeneously so declaration order is unambiguous.',
             'exhaustive program enumeration (all DAGs up to n) executed on the implementation with a trace monitor'),
     'C12': ('model_checking', '3/C12',
-            'Every emit-flag subset x store_schema override x emit_step x schedule (and a structural add/delete history) is executed with a recording user Emitter; each emit() call is compared with an independently filtered snapshot, row times with the ideal-timeline batch times, larger emit_step runs with the emit_step-1 run of the same world.',
+            'Every emit-flag subset x store_schema override x emit_step x schedule (and a structural add/delete history) is executed with a recording user Emitter; each emit() call is compared with an independently filtered snapshot, row times with the ideal-timeline batch times, larger emit_step runs with the emit_step-1 run of the same world. Also nested emit branches with branch-level flags and a units variable with a co-declared custom serializer.',
             'Snapshot = Engine.state.get_value() read inside emit(); flagged set computed from the world spec; liveness clause for emit_step > 1 as stated in DESIGN.',
             'bounded exhaustive execution enumeration with per-emit snapshot oracle, ideal-timeline conformance and emit_step differential'),
     'C14': ('exploration', '3/C14',
-            'Bounded-exhaustive input enumeration: every value tree up to the stated depth/width over a boundary-value alphabet (incl. nan/inf/huge/tiny magnitudes x compound units) is pushed through serialize_value/deserialize_value and RAMEmitter and compared with an independent normal form; every reject must raise TypeError.',
+            'Bounded-exhaustive input enumeration: every value tree up to the stated depth/width over a boundary-value alphabet (incl. nan/inf/huge/tiny magnitudes x compound units) is pushed through serialize_value/deserialize_value and RAMEmitter and compared with an independent normal form; every reject must raise TypeError. Rejects include callables that are neither functions nor processes.',
             'Values outside the alphabet (arbitrary floats, serializer-shaped strings) are not covered; set order insignificant.',
             'bounded exhaustive input enumeration against a reference normal form'),
     'C17': ('exploration', '3/C17',
-            'Exhaustive: all trees of depth <= 3 over two keys x all start nodes x all paths of length <= 3/4 over {a, b, ..} x all node pairs; path laws are checked by node identity on real Store objects and against ten-line reference functions for the dictionary helpers.',
+            'Exhaustive: all trees of depth <= 3 over two keys x all start nodes x all paths of length <= 3/4 over {a, b, ..} x all node pairs; path laws are checked by node identity on real Store objects and against ten-line reference functions for the dictionary helpers. Also the store API ([]), trees with shared sub-dict objects, falsy writes, and the laws after a subtree was moved.',
             'Walks above the root and walks through a leaf are outside the laws.',
             'exhaustive small-scope enumeration of trees and paths against reference path functions'),
     'C18': ('exploration', '3/C18',
-            'All 24 variable trees x 1-3 times x cell assignments over falsy/truthy/quantity values (all, or all with <= 2 deviating cells) x all query sets are emitted through RAMEmitter and read back through every accessor; columns, cells and query results are compared with the rows that were emitted.',
+            'All 24 variable trees x 1-3 times x cell assignments over falsy/truthy/quantity values (all, or all with <= 2 deviating cells) x all query sets are emitted through RAMEmitter and read back through every accessor; columns, cells and query results are compared with the rows that were emitted. Also raw data with permuted time-key insertion order, units with exponents, lists mixing numbers and quantities.',
             'Every variable exists at every time; quantity columns keyed (name, unit string).',
             'bounded exhaustive input enumeration with a round-trip oracle'),
     'C08': ('exploration', '3/C08',
-            'Every registered updater (and a user function, and per-update _updater overrides) over small value/update domains, node depths, sibling counts and batches of 1-3 updates is applied through Store.apply_update and through Engine.update with scripted probes, and compared with reference updaters; also checks the frame (other variables untouched), that the update handed in is not modified, and declared units.',
+            'Every registered updater (and a user function, and per-update _updater overrides) over small value/update domains, node depths, sibling counts and batches of 1-3 updates is applied through Store.apply_update and through Engine.update with scripted probes, and compared with reference updaters; also checks the frame (other variables untouched), that the update handed in is not modified, and declared units. Engine route also through leaf ports (bare, possibly falsy, update values) and list-valued updates through two ports.',
             'Non-commuting batches may be applied in any order; unit magnitudes to 1e-12; dict-valued leaf updates through two ports of one process excluded.',
             'bounded exhaustive input enumeration against reference updaters, two routes (store / engine)'),
     'C11': ('exploration', '3/C11',
-            'Every divider x mother value x EVERY random outcome (both coin sides, every binomial k, by replacing the random sources) x overrides x copied/explicit processes x depth x 1-3 generations is divided in a real Engine (division issued by a step); daughters are compared with reference dividers (conservation, partition), and one daughter is then updated to diff the other one and the outside.',
+            'Every divider x mother value x EVERY random outcome (both coin sides, every binomial k, by replacing the random sources) x overrides x copied/explicit processes x depth x 1-3 generations is divided in a real Engine (division issued by a step); daughters are compared with reference dividers (conservation, partition), and one daughter is then updated to diff the other one and the outside. Also dictionary dividers with equal relative topologies in different branches, dictionary-form branch dividers, the zero divider over typed values, no shared mutable parameters between copied processes.',
             'random.choice / numpy.random.binomial replaced by enumerating choosers; K4 (set divider shares mutable objects) is a known finding.',
             'bounded exhaustive input enumeration incl. all random outcomes, before/after differential for independence'),
     'C19': ('exploration', '3/C19',
-            'All event lists up to length 3/4 in every order with duplicate times, plus all time sequences of length 4/5, x 4 timeline timesteps are run in a real Engine with the real TimelineProcess (also via add_timeline) and compared with the first-tick-reached reference trajectory.',
+            'All event lists up to length 3/4 in every order with duplicate times, plus all time sequences of length 4/5, x 4 timeline timesteps are run in a real Engine with the real TimelineProcess (also via add_timeline) and compared with the first-tick-reached reference trajectory. Also timesteps 0.1 / 0.3 judged on the simulation"s own clock variable, and a TimelineProcess object simulated twice.',
             'Timesteps divide the run length; several events on one variable in one tick apply in (time, listing) order.',
             'exhaustive enumeration of event lists against a reference trajectory'),
     'C06': ('exploration', '3/C06',
@@ -64,7 +64,7 @@ TEXT = {
             'Topologies that omit ports or list only some variables in a _path-less dictionary are outside the well-formed alphabet; nodes that would be both variable and store are skipped.',
             'bounded exhaustive program enumeration (schema x topology grammar) against a reference resolver with a full-state diff'),
     'C15': ('exploration', '3/C15',
-            'For 1-3 processes with ports from the topology grammar that share variables, EVERY subset of resolved nodes is given an explicit initial value and the store is built through Engine(...) and generate_state(...); every node must hold explicit-else-default at the node named by the reference resolver; named glob children must exist with declared defaults; conflicting _value/_units/_serializer declarations must raise ValueError; Composite.initial_state()/default_state() are compared with per-process values mapped through the resolver.',
+            'For 1-3 processes with ports from the topology grammar that share variables, EVERY subset of resolved nodes is given an explicit initial value and the store is built through Engine(...) and generate_state(...); every node must hold explicit-else-default at the node named by the reference resolver; named glob children must exist with declared defaults; conflicting _value/_units/_serializer declarations must raise ValueError; Composite.initial_state()/default_state() are compared with per-process values mapped through the resolver. Also glob co-declarers, rebuilds after a declaration changed, one schema object shared by two processes, dictionary- and array-valued conflicts.',
             'Sharers declare equal defaults; differing defaults are merged silently by design.',
             'bounded exhaustive enumeration of composites x initial-state subsets against a reference resolver'),
     'C07': ('model_checking', '3/C07',
@@ -80,11 +80,11 @@ TEXT = {
             'Steps are idempotent derivations; K2 (_move of a busy process) is a known finding.',
             'explicit-state BFS over operation histories with a reference schedule, a published-composite invariant and a rebuilt-engine differential'),
     'C16': ('exploration', '3/C16',
-            'Four template composers x embedding paths x ALL merge sequences up to length 3/4 x three engine entry points x schema overrides; union model for merges, deep-equality snapshots of merged-in and unrelated composites (then and later), trajectory equality across entry points and re-rooted embeddings.',
+            'Four template composers x embedding paths x ALL merge sequences up to length 3/4 x three engine entry points x schema overrides; union model for merges, deep-equality snapshots of merged-in and unrelated composites (then and later), trajectory equality across entry points and re-rooted embeddings. Also Process.generate, MetaComposer, overrides that survive later merges, overrides with several entries.',
             'Entry points compared on an explicit initial state; K5 (no explicit state) is a known finding.',
             'bounded exhaustive enumeration of merge sequences and entry points with a union model and differential trajectories'),
     'C13': ('fault_enumeration', '3/C13',
-            'Real worker OS processes. Every parallel subset of schedule, step/deriver and structural worlds is run next to its all-serial twin (rows, final state, published composite must be equal), and every stop point is enumerated: end() after each driver call, end() twice, engine dropped without end(), an exception injected into the j-th call of a serial or a parallel process followed by end(), and deletion/division/move/generation at ticks that leave the worker idle, due in the same batch or in flight (small and pipe-buffer-exceeding updates, operator listed before or after the victim). No still-pending error (also from __del__), end() returns, every worker pid is gone within the watchdog.',
+            'Real worker OS processes. Every parallel subset of schedule, step/deriver and structural worlds is run next to its all-serial twin (rows, final state, published composite must be equal), and every stop point is enumerated: end() after each driver call, end() twice, engine dropped without end(), an exception injected into the j-th call of a serial or a parallel process followed by end(), and deletion/division/move/generation at ticks that leave the worker idle, due in the same batch or in flight (small and pipe-buffer-exceeding updates, operator listed before or after the victim). No still-pending error (also from __del__), end() returns, every worker pid is gone within the watchdog. Also schema overrides of parallel processes, generated parallel steps that are moved later, and every pair of empty-shaped update values through the pipe.',
             'Worker liveness by pid; ParallelProcess.__init__ wrapped in the harness to record pids; K2 is a known finding.',
             'exhaustive fault/stop-point enumeration over real worker processes with a serial-vs-parallel differential oracle'),
 }
